@@ -118,6 +118,7 @@ class VTModel:
         self.enabled = False
         self.spin_limit = spin_limit
         self.max_same_instant = 0
+        self.max_not_advancing = 0
 
     # -- scheduling
     def schedule_absolute(self, due, payload, internal=False):
@@ -151,11 +152,15 @@ class VTModel:
         self.enabled = True
         self.clock_lo = self.clock
         same = 0
+        not_advancing = 0
         while self.enabled and self.heap:
             due, _, e = heapq.heappop(self.heap)
             if due > self.clock:
                 self.clock = due
                 same = 0
+            else:
+                not_advancing += 1  # statistics only: dequeues in this run that tied with / lay before the clock
+                self.max_not_advancing = max(self.max_not_advancing, not_advancing)
             same += 1
             self.max_same_instant = max(self.max_same_instant, same)
             if self.spin_limit is not None and same >= self.spin_limit:
